@@ -83,4 +83,17 @@ Insort(r, e, Less(_, _)) ==
     IN  SubSeq(r, 1, j - 1) \o <<e>> \o SubSeq(r, j, Len(r))
 
 RemoveAt(s, i) == SubSeq(s, 1, i - 1) \o SubSeq(s, i + 1, Len(s))
+
+(* ---- minimal movement ---- *)
+(* lst = the last membership change: <<"add", n>>, <<"del", n>> or <<"upd", n, n2>> (the        *)
+(* address of one destination changed so that it is node n2 instead of n; n2 = n when only the  *)
+(* port changed or the new address was not taken over).  A key whose owner was `was` before the *)
+(* change may be owned by `now` # `was` after it only if the change requires it: an add moves   *)
+(* keys to the new node only, a removal moves only the keys of the removed node, an update is   *)
+(* both at once (and nothing when n2 = n).                                                      *)
+MoveAllowedBy(lst, was, now) ==
+    CASE lst[1] = "add" -> now = lst[2]
+      [] lst[1] = "del" -> was = lst[2]
+      [] lst[1] = "upd" -> lst[2] # lst[3] /\ (was = lst[2] \/ now = lst[3])
+      [] OTHER -> FALSE
 =============================================================================
